@@ -55,6 +55,8 @@ def abstract_block(block):
 
 
 EXPECTED_SHAPE = '''if K0 in main_module:
+    import copy
+    options = copy.copy(options)
     for line in main_module.splitlines():
         if K1 not in line:
             continue
